@@ -79,11 +79,70 @@ SharedEnd ==
                     << Rule("#m", <<Lit("a")>>, <<>>, <<>>), Rule("#m", <<Lit("b")>>, <<>>, <<>>) >> \o SEKeys)
          : id2 \in SEIds, v \in {"a", "b"}}
 
+(* ---- reference towers (depth of inlining as a dimension): a rule #k with a constrained pattern is reached TWICE by
+   one expanded name although no rule names it (or the rule between) twice itself - once through #ma and once directly
+   (#top: #ma/#k, #k/#ma), through two different rules (#top: #ma/#mb), or through one level more (#mc: #ma,
+   #top: #mc/#k); #top: #ma/#ma is the direct double reference of a rule that itself inlines #k.  Every copy of a
+   temporary pattern is an occurrence of its own and keeps the constraints of its text (TVar: one variable per
+   reference path); a named pattern is one variable, both copies must be equal.  #top is a packet rule (signed by #s)
+   and a key rule (signer of #d, whose name binds x) at once. *)
+TwrK(v, alt) == Rule("#k", <<P(v)>>, IF alt THEN <<Alt(v, "a"), Alt(v, "b")>> ELSE << <<C1(v, <<Lit("a"), Lit("b")>>)>> >>, <<>>)
+(* the rules between: <<name, constraint sets>>; the last two have a constrained temporary pattern of their own after /
+   before the inlined one (temporaries of different rules meet in one expanded name and stay apart) *)
+TwrMid  == {<< <<R("#k")>>, <<>> >>, << <<R("#k"), Lit("c")>>, <<>> >>,
+            << <<R("#k"), P("_m")>>, << <<C1("_m", <<Lit("c")>>)>> >> >>,
+            << <<P("_m"), R("#k")>>, << <<C1("_m", <<Lit("c")>>)>> >> >>}
+TwrTail(top) == << Rule("#top", top, <<>>, <<"#s">>), Rule("#s", <<Lit("c")>>, <<>>, <<>>),
+                   Rule("#d", <<Lit("b"), P("x")>>, <<>>, <<"#top">>) >>
+Towers ==
+  UNION {UNION {
+    LET base == <<k, Rule("#ma", a[1], a[2], <<>>)>> IN
+    {base \o TwrTail(top) : top \in {<<R("#ma"), R("#k")>>, <<R("#k"), R("#ma")>>, <<R("#ma"), R("#ma")>>}}
+    \cup {base \o <<Rule("#mc", <<R("#ma")>>, <<>>, <<>>)>> \o TwrTail(<<R("#mc"), R("#k")>>)}
+    \cup {base \o <<Rule("#mb", b[1], b[2], <<>>)>> \o TwrTail(<<R("#ma"), R("#mb")>>) : b \in TwrMid}
+    : a \in TwrMid} : k \in {TwrK("_t", FALSE), TwrK("_t", TRUE), TwrK("x", FALSE)}}
+
+(* ---- wide schemas (scale as a dimension): 7, 10 or 13 rules, each with a named pattern of its own - 9 to 17 distinct
+   named patterns and up to 8 temporary ones in one schema - that is repeated within the name (p/p), referred to by a
+   constraint ({q: p}), shared with the rule it signs ("b"/p_i/p_(i-1): the key must repeat the packet's binding), or
+   absent (temporaries only).  What a pattern means does not depend on how many others the schema has.
+   #w1 <= #w2 <= ... <= #wn. *)
+WId(i) == "#w" \o ToString(i)
+WP(i)  == "p" \o ToString(i)
+WQ(i)  == "q" \o ToString(i)
+WRule(i, n, sh) ==
+  LET nxt == IF i < n THEN <<WId(i + 1)>> ELSE <<>> IN
+  CASE sh = 0 -> Rule(WId(i), <<P(WP(i)), P(WP(i))>>, <<>>, nxt)
+    [] sh = 1 -> Rule(WId(i), <<P(WP(i)), Lit("c"), P(WQ(i))>>, << <<C1(WQ(i), <<P(WP(i))>>)>> >>, nxt)
+    [] sh = 2 /\ i > 1 -> Rule(WId(i), <<Lit("b"), P(WP(i)), P(WP(i - 1))>>, <<>>, nxt)
+    [] sh = 2 /\ i = 1 -> Rule(WId(i), <<Lit("b"), P(WP(i))>>, <<>>, nxt)
+    [] OTHER -> Rule(WId(i), <<P("_t"), Lit("a"), P("_u")>>, << <<C1("_u", <<Lit("a"), Lit("b")>>)>> >>, nxt)
+WideOf(n, o) == [i \in 1..n |-> WRule(i, n, (i + o) % 4)]
+Wide == {WideOf(7, 0)} \cup {WideOf(n, o) : n \in {10, 13}, o \in 0..3}
+
+(* ---- stacked constraints (number of constraints on ONE pattern of one expanded name as a dimension): the pattern
+   y (or the temporary _t) of #r1: x/y gets two constraints - both in one set of #r1, or one in #r1 and one in
+   #r2: #r1/"c" which inherits the first.  The constraints hold TOGETHER (ConsHold: every constraint about the
+   variable, each by one of its options); their options mix literals with "equal to x" / $eq(x), so that two
+   constraints whose literals exclude each other may still hold at once through the other alternative.  #r2 is a
+   packet rule (signed by #s) and a key rule (signer of #d: "b"/x, which binds x beforehand). *)
+FEq(a) == [k |-> "f", f |-> "$eq", args |-> <<a>>]
+StkO1 == {<<Lit("a")>>, <<Lit("a"), Lit("b")>>, <<Lit("a"), P("x")>>, <<Lit("b"), FEq(P("x"))>>}
+StkO2 == {<<Lit("c")>>, <<Lit("b"), Lit("c")>>, <<Lit("c"), P("x")>>, <<Lit("c"), FEq(P("x"))>>, <<P("x")>>}
+StkTail(c2) == << Rule("#r2", <<R("#r1"), Lit("c")>>, c2, <<"#s">>), Rule("#s", <<Lit("c")>>, <<>>, <<>>),
+                  Rule("#d", <<Lit("b"), P("x")>>, <<>>, <<"#r2">>) >>
+Stacked ==
+  UNION {{ <<Rule("#r1", <<P("x"), P("y")>>, << <<C1("y", o1)>> >>, <<>>)>> \o StkTail(<< <<C1("y", o2)>> >>),      \* inherited + own
+           <<Rule("#r1", <<P("x"), P("y")>>, << <<C1("y", o2)>> >>, <<>>)>> \o StkTail(<< <<C1("y", o1)>> >>),
+           <<Rule("#r1", <<P("x"), P("y")>>, << <<C1("y", o1), C1("y", o2)>> >>, <<>>)>> \o StkTail(<<>>),            \* one set
+           <<Rule("#r1", <<P("x"), P("_t")>>, << <<C1("_t", o1), C1("_t", o2)>> >>, <<>>)>> \o StkTail(<<>>) }
+         : o1 \in StkO1, o2 \in StkO2}
+
 WfFamily == {s \in UNION {RedefSigned(s) : s \in
               UNION {UNION {UNION {{pr \o r3 : r3 \in Rule3s(r2)} : pr \in Signed(r1, r2)}
                             : r2 \in Rule2New(r1) \cup Rule2Redef} : r1 \in Rule1s}}
              : WellFormed([rules |-> s])}
-            \cup SharedEnd
+            \cup SharedEnd \cup Towers \cup Stacked \cup Wide
 
 (* ---- possibly ill-formed family ---- *)
 BadNames == {<<i>> : i \in {Lit("a"), P("x"), R("#r1"), R("#r2"), R("#_k"), R("#zz")}}
@@ -116,11 +175,17 @@ Focus2(s)  == Len(s) = 3 /\ s[2].id = "#r2" /\ s[3].name = <<R("#r2"), R("#r1")>
 HasItem(r, it) == \E j \in 1..Len(r.name) : r.name[j] = it
 Focus3(s)  == Len(s) >= 2 /\ Len(s[1].cons) > 0 /\ s[1].cons[1][1].pat = "x" /\ ~HasItem(s[1], P("x"))
               /\ s[2].id = "#r2" /\ HasItem(s[2], R("#r1")) /\ HasItem(s[2], P("x"))
-Focus4(s)  == Len(s) >= 4                                  \* SharedEnd
+Focus4(s)  == Len(s) >= 4 /\ \E j \in 1..Len(s) : s[j].id = "#k1"      \* SharedEnd
+Focus5(s)  == \E j \in 1..Len(s) : s[j].id = "#top"                     \* Towers
+Focus6(s)  == \E j \in 1..Len(s) : s[j].id = "#d" /\ s[j].sign = <<"#r2">>   \* Stacked
+Focus7(s)  == Len(s) >= 7                                               \* Wide
 FocusBad(s) == Len(s) = 3                                  \* TwinBad
 (* focus shapes are sampled every (FocusStride * weight)-th; weight 0: not a focus shape *)
 FocusW(s)  == IF Mode \in {"schemas", "checks"}
-              THEN (IF Focus(s) \/ Focus2(s) \/ Focus4(s) THEN 1 ELSE IF Focus3(s) THEN 4 ELSE 0)
+              THEN (IF Focus(s) \/ Focus2(s) \/ Focus4(s) \/ Focus7(s) THEN 1
+                    ELSE IF Focus5(s) THEN (IF Mode = "checks" THEN 2 ELSE 1)
+                    ELSE IF Focus6(s) THEN 2
+                    ELSE IF Focus3(s) THEN 4 ELSE 0)
               ELSE IF Mode = "illformed" THEN (IF FocusBad(s) THEN 1 ELSE 0)
               ELSE 0
 Picked == {i \in 1..Count : i % Stride = Offset % Stride}
